@@ -77,6 +77,11 @@ Theorem C01_conforms_refuted : exists t v b,
   wf t v = true /\ ser_value true t v = Ok b /\ ~ Enc t v b.
 Proof. exact conforms_refuted. Qed.
 
+(* the specification function [enc_spec] (hence Enc) is exactly the inductive relation EncR, whose
+   rules are the sentences of the protocol text (Model/Cql.v section 7) *)
+Theorem C01_enc_relation : forall t v b, Enc t v b <-> EncR t v b.
+Proof. exact (fun t v b => enc_spec_relation t v b). Qed.
+
 (* cells: null is [int] -1, not-set is [int] -2, a value is [int] n + n bytes of its encoding *)
 Theorem C01_cell_conforms : forall t c b,
   wf_cell t c = true ->
@@ -147,6 +152,20 @@ Theorem C01_typed_roundtrip : forall k t v x b,
   typed_write k true t v = Ok b ->
   exists body, b = framed body /\ typed_read k t (Some body) = unembed k t (pad t x).
 Proof. exact typed_roundtrip. Qed.
+
+(* ... and for every PLAIN carrier (no CqlValue inside - it pads - and no Option around something
+   that can itself be null - Some(None) is written as null) the decoder returns the very carrier
+   value that was written: "decoding those bytes yields an equal value" through the typed carriers *)
+Theorem C01_typed_roundtrip_exact : forall k t v x b,
+  plain k = true -> embed k t v = Some (CVal x) -> typed_check k t = true ->
+  wf t x = true -> known_class t x = false ->
+  typed_write k true t v = Ok b ->
+  exists body, b = framed body /\ typed_read k t (Some body) = Ok v.
+Proof. exact typed_roundtrip_exact. Qed.
+
+(* the num-bigint family: from_signed_bytes_be (to_signed_bytes_be z) = z for every integer *)
+Theorem C01_bigint_normal_form : forall z, big_of_bytes (min_twos z) = z.
+Proof. exact big_of_min_twos. Qed.
 
 (* ---------------------------------------------------------------------------------------- *)
 (* F2 fix proposal: the repaired vector writer [ser_value_fixed] (Model/Cql.v section 4b)      *)
@@ -427,6 +446,30 @@ Example C01_ex_typed :
   typed_read (KLeaf LString) (TNative NAscii) (Some [195; 169]) = Err DE_ExpectedAscii.
 Proof. cbv zeta. repeat split; vm_compute; reflexivity. Qed.
 
+Example C01_ex_enc_relation :
+  EncR (TList (TTuple [TNative NInt; TNative NText])) (CList [CTuple [Some (CInt 7)]])
+       [0;0;0;1; 0;0;0;8; 0;0;0;4; 0;0;0;7] /\
+  ~ EncR (TNative NInt) (CInt 7) [0;0;0;8] /\
+  ~ EncR (TVector (TNative NInt) 2) (CVector [CInt 7; CEmpty]) [0;0;0;7].
+Proof.
+  split; [apply C01_enc_relation; vm_compute; reflexivity|].
+  split; intros H; apply C01_enc_relation in H; vm_compute in H; discriminate H.
+Qed.
+
+Example C01_ex_plain :
+  (* plain carriers, and the two kinds that are not: CqlValue pads, Option<Option<T>> forgets Some(None) *)
+  plain (KVec (KTuple [KLeaf LI32; KOption (KLeaf LString)])) = true /\
+  plain (KMapC (KLeaf LString) (KOption (KLeaf LBigInt))) = true /\
+  plain KDyn = false /\ plain (KOption (KOption (KLeaf LI32))) = false /\ plain (KMaybeUnset (KLeaf LI32)) = false /\
+  typed_write (KOption (KOption (KLeaf LI32))) true (TNative NInt) (TSome TNone) = Ok [255; 255; 255; 255] /\
+  typed_read (KOption (KOption (KLeaf LI32))) (TNative NInt) None = Ok TNone /\
+  typed_write KDyn true (TTuple [TNative NInt; TNative NInt]) (TDynV (CTuple [Some (CInt 1)])) = Ok [0;0;0;8; 0;0;0;4; 0;0;0;1] /\
+  typed_read KDyn (TTuple [TNative NInt; TNative NInt]) (Some [0;0;0;4; 0;0;0;1]) = Ok (TDynV (CTuple [Some (CInt 1); None])) /\
+  (* bigint boundaries *)
+  min_twos 127 = [127] /\ min_twos 128 = [0; 128] /\ min_twos (-128) = [128] /\ min_twos (-129) = [255; 127] /\
+  min_twos 0 = [0] /\ min_twos (-1) = [255] /\ min_twos (2 ^ 63) = [0; 128; 0; 0; 0; 0; 0; 0; 0].
+Proof. repeat split; vm_compute; reflexivity. Qed.
+
 Print Assumptions C01_roundtrip.
 Print Assumptions C01_roundtrip_value.
 Print Assumptions C01_roundtrip_value_sized.
@@ -444,6 +487,8 @@ Print Assumptions C01_sequence_cells_vals.
 Print Assumptions C01_typed_write.
 Print Assumptions C01_typed_read.
 Print Assumptions C01_typed_roundtrip.
+Print Assumptions C01_typed_roundtrip_exact.
+Print Assumptions C01_bigint_normal_form.
 Print Assumptions C01_fixed_refines.
 Print Assumptions C01_fixed_no_hole.
 Print Assumptions C01_fixed_complete.
@@ -453,6 +498,7 @@ Print Assumptions C01_wf_native_char.
 Print Assumptions C01_outside_ascii.
 Print Assumptions C01_outside_time.
 Print Assumptions C01_outside_varint.
+Print Assumptions C01_enc_relation.
 Print Assumptions C01_cell_conforms.
 Print Assumptions C01_cell_markers.
 Print Assumptions C01_ser_total.
